@@ -6,7 +6,11 @@ V="$(cd "$(dirname "$0")/.." && pwd)"
 SEED="$1"; TIER="$2"; shift 2
 [ -z "$(git -C /repo status --porcelain)" ] || { echo "/repo is not clean"; exit 2; }
 git -C /repo apply "$V/seeded/$SEED/patch.diff" || exit 2
-trap 'git -C /repo checkout -- . ; git -C /repo clean -fdq' EXIT
+# the evidence files are for clean-tree runs: keep them aside and put them back afterwards; rebuild the harness and the
+# regenerated Coq files from the clean tree at the end
+SAVE=$(mktemp -d)
+cp -a "$V/evidence/." "$SAVE/" 2>/dev/null
+trap 'git -C /repo checkout -- . ; git -C /repo clean -fdq; cp -a "$SAVE/." "$V/evidence/"; rm -rf "$SAVE"; "$V/tools/build_harness.sh" >/dev/null 2>&1; "$V/build/verifh" gen -repo /repo -out "$V/coq/Gen" >/dev/null 2>&1' EXIT
 for P in "$@"; do
   OUT=$("$V/tools/check" "$P" --tier "$TIER" 2>&1); RC=$?
   echo "seed=$SEED property=$P tier=$TIER exit=$RC"
